@@ -26,6 +26,9 @@ static char n_a[] = "a", n_t[] = "t", n_u[] = "u", n_b[] = "b", n_c[] = "c", n_x
 static struct type t_S, t_T, t_U, t_B, t_short;
 static struct member m_a, m_t, m_u, m_b, m_c, m_x, m_y, m_i, m_h;
 static struct initparser ip;
+#define O 1     /* S sits in slot 1; slot 0 holds an enclosing struct Z { struct S s; int w; } that is NOT the brace level: a cursor that
+                   wrongly leaves the brace level lands on defined data (w) instead of below the stack */
+static struct type t_Z; static struct member m_s, m_w; static char n_s[] = "s", n_w[] = "w";
 u64 nondet_u64(void);
 
 static void
@@ -53,23 +56,25 @@ scenario(unsigned pos, bool curT)
 	mkmem(&m_c, n_c, &t_int, 24, 0); mkmem(&m_b, n_b, &t_B, 16, &m_c); mkmem(&m_u, n_u, &t_U, 12, &m_b);
 	mkmem(&m_t, n_t, &t_T, 4, &m_u); mkmem(&m_a, n_a, &t_int, 0, &m_t); mkstruct(&t_S, TYPESTRUCT, &m_a, 28);
 
+	mkmem(&m_w, n_w, &t_int, 28, 0); mkmem(&m_s, n_s, &t_S, 0, &m_w); mkstruct(&t_Z, TYPESTRUCT, &m_s, 32);
+	ip.obj[0].type = &t_Z; ip.obj[0].offset = 0; ip.obj[0].iscur = true; ip.obj[0].u.mem = &m_s;
 	ip.init = 0; ip.last = &ip.init;
-	ip.sub = &ip.obj[0]; ip.obj[0].type = &t_S; ip.obj[0].offset = base; ip.obj[0].iscur = true;
-	ip.cur = &ip.obj[0];
+	ip.sub = &ip.obj[O]; ip.obj[O].type = &t_S; ip.obj[O].offset = base; ip.obj[O].iscur = true;
+	ip.cur = &ip.obj[O];
 	switch (pos) {
-	case P_A: ip.obj[0].u.mem = &m_a; push(&t_int, base); break;
-	case P_T: ip.obj[0].u.mem = &m_t; push(&t_T, base + 4); break;
-	case P_TX: ip.obj[0].u.mem = &m_t; push(&t_T, base + 4); ip.obj[1].u.mem = &m_x; push(&t_int, base + 4); break;
-	case P_TY: ip.obj[0].u.mem = &m_t; push(&t_T, base + 4); ip.obj[1].u.mem = &m_y; push(&t_int, base + 8); break;
-	case P_U: ip.obj[0].u.mem = &m_u; push(&t_U, base + 12); break;
-	case P_UI: ip.obj[0].u.mem = &m_u; push(&t_U, base + 12); ip.obj[1].u.mem = &m_i; push(&t_int, base + 12); break;
-	case P_UH: ip.obj[0].u.mem = &m_u; push(&t_U, base + 12); ip.obj[1].u.mem = &m_h; push(&t_short, base + 12); break;
-	case P_B: ip.obj[0].u.mem = &m_b; push(&t_B, base + 16); break;
-	case P_B0: ip.obj[0].u.mem = &m_b; push(&t_B, base + 16); ip.obj[1].u.idx = 0; push(&t_int, base + 16); break;
-	case P_B1: ip.obj[0].u.mem = &m_b; push(&t_B, base + 16); ip.obj[1].u.idx = 4; push(&t_int, base + 20); break;
-	default: ip.obj[0].u.mem = &m_c; push(&t_int, base + 24); break;
+	case P_A: ip.obj[O].u.mem = &m_a; push(&t_int, base); break;
+	case P_T: ip.obj[O].u.mem = &m_t; push(&t_T, base + 4); break;
+	case P_TX: ip.obj[O].u.mem = &m_t; push(&t_T, base + 4); ip.obj[O + 1].u.mem = &m_x; push(&t_int, base + 4); break;
+	case P_TY: ip.obj[O].u.mem = &m_t; push(&t_T, base + 4); ip.obj[O + 1].u.mem = &m_y; push(&t_int, base + 8); break;
+	case P_U: ip.obj[O].u.mem = &m_u; push(&t_U, base + 12); break;
+	case P_UI: ip.obj[O].u.mem = &m_u; push(&t_U, base + 12); ip.obj[O + 1].u.mem = &m_i; push(&t_int, base + 12); break;
+	case P_UH: ip.obj[O].u.mem = &m_u; push(&t_U, base + 12); ip.obj[O + 1].u.mem = &m_h; push(&t_short, base + 12); break;
+	case P_B: ip.obj[O].u.mem = &m_b; push(&t_B, base + 16); break;
+	case P_B0: ip.obj[O].u.mem = &m_b; push(&t_B, base + 16); ip.obj[O + 1].u.idx = 0; push(&t_int, base + 16); break;
+	case P_B1: ip.obj[O].u.mem = &m_b; push(&t_B, base + 16); ip.obj[O + 1].u.idx = 4; push(&t_int, base + 20); break;
+	default: ip.obj[O].u.mem = &m_c; push(&t_int, base + 24); break;
 	}
-	if (curT) { ip.cur = &ip.obj[1]; ip.obj[1].iscur = true; }
+	if (curT) { ip.cur = &ip.obj[O + 1]; ip.obj[O + 1].iscur = true; }
 
 	/* the next subobject in order (6.7.9p17/p20) */
 	xm = 0;
@@ -88,12 +93,13 @@ scenario(unsigned pos, bool curT)
 
 	__CPROVER_assert(wellformed, "6.7.9p2: past the last subobject of the brace level's object there is nothing to initialise: diagnosed");
 	__CPROVER_assume(wellformed);
-	__CPROVER_assert(p->sub == &ip.obj[xdepth], "exhausted subaggregates are left (one slot per level), the next subobject is entered");
+	__CPROVER_assert(p->sub == &ip.obj[O + xdepth], "exhausted subaggregates are left (one slot per level), the next subobject is entered");
 	__CPROVER_assert(p->sub->type == xt && p->sub->offset == base + xoff && !p->sub->iscur, "6.7.9p17/p20: next member in declaration order / next element / the member after the union or exhausted subaggregate, at its offset");
-	__CPROVER_assert(xm == 0 || ip.obj[0].u.mem == xm, "the enclosing struct slot names the member now entered");
-	__CPROVER_assert(pos != P_TX || ip.obj[1].u.mem == &m_y, "the enclosing struct slot names the member now entered (nested)");
-	__CPROVER_assert(pos != P_B0 || ip.obj[1].u.idx == 4, "the enclosing array slot holds the byte index of the element now entered");
-	__CPROVER_assert(ip.cur == &ip.obj[curT ? 1 : 0] && ip.obj[0].type == &t_S && ip.obj[0].offset == base && ip.obj[0].iscur, "brace level and outer slot untouched");
+	__CPROVER_assert(xm == 0 || ip.obj[O].u.mem == xm, "the enclosing struct slot names the member now entered");
+	__CPROVER_assert(pos != P_TX || ip.obj[O + 1].u.mem == &m_y, "the enclosing struct slot names the member now entered (nested)");
+	__CPROVER_assert(pos != P_B0 || ip.obj[O + 1].u.idx == 4, "the enclosing array slot holds the byte index of the element now entered");
+	__CPROVER_assert(ip.cur == &ip.obj[O + (curT ? 1 : 0)] && ip.obj[O].type == &t_S && ip.obj[O].offset == base && ip.obj[O].iscur, "brace level and outer slot untouched");
+	__CPROVER_assert(ip.obj[0].type == &t_Z && ip.obj[0].u.mem == &m_s && ip.obj[0].iscur, "the slot below the brace level is untouched");
 	__CPROVER_assert(t_S.size == 28 && t_B.size == 8 && !t_B.incomplete, "types untouched");
 #ifdef VERIF_CANARY
 	__CPROVER_assert(!(g_last && base == 5), "CANARY");
